@@ -298,30 +298,6 @@ func genVectorPdf(t *core.Tape, depth int) (st.VectorPdf, string) {
 	return d, name
 }
 
-// genSimpleDist: scalar families and the translation / log-transform wrappers.
-func genSimpleDist(t *core.Tape) *dist {
-	k := t.Choose(20)
-	mk := func() (st.ScalarPdf, string) {
-		for {
-			// depth 2 forbids the compound families (mixture and wrappers)
-			d, n := genScalarPdf(t, 2)
-			return d, n
-		}
-	}
-	in, nm := mk()
-	switch k {
-	case 18:
-		if d, err := sd.NewPdfTranslation(in, float64(t.Range(0, 4))/2); err == nil {
-			return &dist{"translation(" + nm + ")", "scalar", d}
-		}
-	case 19:
-		if d, err := sd.NewPdfLogTransform(in, float64(t.Range(0, 4))/2); err == nil {
-			return &dist{"logtransform(" + nm + ")", "scalar", d}
-		}
-	}
-	return &dist{nm, "scalar", in}
-}
-
 func genDist(t *core.Tape) *dist {
 	switch t.Pick([]int{5, 4, 1}) {
 	case 0:
@@ -653,16 +629,6 @@ func runConfig(c *core.Ctx, faults bool) {
 	}
 	/* fault-injecting configuration */
 	fam := t.Choose(6)
-	if fam < 4 && c.Avoid["C18-F2"] {
-		// content-changing faults only on the families whose importers
-		// validate their input (open finding C18-F2 covers the compound ones)
-		d = genSimpleDist(t)
-		cfg = d.d.ExportConfig()
-		w = &simWriter{failAt: -1}
-		cfg.WriteJson(w)
-		data = w.buf.Bytes()
-		c.Logf("distribution (restricted by C18-F2): %s  config: %s", d.name, describeBytes(data))
-	}
 	famName := []string{"torn", "token", "bitflip", "line", "stream-read-error", "writer-failure"}[fam]
 	n := 0
 	accept := func(got st.ConfigurableDistribution, f fault) {
@@ -790,7 +756,6 @@ func init() {
 		Run:      Run,
 		Probes: []core.FindingProbe{
 			{ID: "C18-F1", Run: ProbeEmptyTable},
-			{ID: "C18-F2", Run: ProbeCompoundImport},
 		},
 		StepUnit: "inputs delivered to a reader (clean or damaged)",
 		Rule: "one run = one artifact drawn by the tape (scalar of 9 mutable + 7 constant types; dense/sparse vector or matrix of 9 element types, possibly a nested Slice/T view, derivatives and Hessians attached for real types; values incl. -0, subnormals, extreme exponents, type bounds; or a distribution of ~30 families incl. nested mixtures, transforms, HMMs with tied emissions) written by the real writer. Round-trip scenarios: decode(encode(x)) must be observably equal. Fault scenarios: one fault family is drawn and EVERY position of it is enumerated on the artifact's bytes (all torn prefixes, bit flips, lost/duplicated bytes, zero-filled tails, duplicated blocks, splices with an older file, every number token replaced by 19 hostile tokens, lost/duplicated/swapped lines, gzip container valid/truncated at every byte/corrupt trailer/bare magic, missing file/directory/empty file; for configurations also a stream that fails at byte k and a writer whose medium fails at byte k); the reader must return an error or an object that is fully usable and survives its own round trip. Non-trivial = at least one input delivered. Distinct = distinct (artifact, codec, fault family).",
@@ -831,20 +796,3 @@ func ProbeEmptyTable(c *core.Ctx) {
 	}
 }
 
-// ProbeCompoundImport: a mixture configuration whose Distributions entry is
-// missing is accepted and yields a mixture without components.
-func ProbeCompoundImport(c *core.Ctx) {
-	cfg := st.ConfigDistribution{}
-	in := `{"Name": "scalar:mixture distribution", "Parameters": [1], "Eistributions": [{"Name": "scalar:exponential distribution", "Parameters": [0.25], "Distributions": null}]}`
-	if err := cfg.ReadJson(bytes.NewReader([]byte(in))); err != nil {
-		return
-	}
-	d, err := st.ImportScalarPdfConfig(cfg, rt)
-	c.Logf("import of a mixture configuration without Distributions: err=%v", err)
-	if err != nil {
-		return
-	}
-	if pv, site := core.Try(func() { _ = d.GetParameters() }); pv != nil {
-		c.Fail("silent-corruption", "Distribution|config|decoded-object-unusable|compound-distribution-without-components", "a mixture configuration whose Distributions entry is missing is accepted; GetParameters of the result panics in %s: %v", site, pv)
-	}
-}
